@@ -30,6 +30,10 @@ pub fn cfg(shard: usize) -> GenCfg {
 /// declared size of an inline line, a function of its (lower-cased) text so that the oracle
 /// can recompute it from the emitted assembly: inc/dec lines carry no hint (default 3)
 fn declared_size(text: &str, true_size: u32) -> Option<u32> {
+    if text.trim().starts_with(';') {
+        // a comment line of the assembler: declared (and true) size 0
+        return Some(0);
+    }
     let m = text.trim().split_whitespace().next().unwrap_or("").to_ascii_lowercase();
     if m == "inc" || m == "dec" {
         None
@@ -41,6 +45,10 @@ fn declared_size(text: &str, true_size: u32) -> Option<u32> {
 fn lower_asm(s: &mut Stmt) {
     match s {
         Stmt::Asm(t, sz) => {
+            if t.trim().starts_with(';') {
+                *sz = Some(0);
+                return;
+            }
             // mnemonic in lower case marks the line as inline assembler for the oracle
             let mut it = t.splitn(2, ' ');
             let m = it.next().unwrap_or("").to_ascii_lowercase();
